@@ -190,11 +190,15 @@ func (s *Service) fetchEncodedDataRootTuples(ctx context.Context, start, end uin
 	}
 	headers = append(headers, startHeader)
 
-	headerRange, err := s.headerGetter.GetRangeByHeight(ctx, startHeader, end)
-	if err != nil {
-		return nil, err
+	// a range of one block consists of the start header only; the header store
+	// refuses to serve the empty range (start, end)
+	if end > start+1 {
+		headerRange, err := s.headerGetter.GetRangeByHeight(ctx, startHeader, end)
+		if err != nil {
+			return nil, err
+		}
+		headers = append(headers, headerRange...)
 	}
-	headers = append(headers, headerRange...)
 
 	for _, header := range headers {
 		encodedDataRootTuple, err := encodeDataRootTuple(header.Height(), *(*[32]byte)(header.DataHash))
